@@ -145,7 +145,8 @@ Proof.
   intros L. unfold altitude_value. destruct code as [code|]; [|eauto].
   destruct (N.land code 2 =? 0); [|eauto].
   destruct (N.land code 1 =? 0).
-  - destruct (graytobin_ge m L) as [[h l] E]. rewrite E. cbn [bind]. cbv zeta.
+  - destruct (N.shiftr code 2 =? 0); [eauto|].
+    destruct (graytobin_ge m L) as [[h l] E]. rewrite E. cbn [bind]. cbv zeta.
     destruct (1200 <=? _); eauto.
   - cbv zeta. destruct (1000 <=? _); eauto.
 Qed.
